@@ -3,11 +3,15 @@
     to_str_radix cfg radix a → hex bytes of the string / P
     to_radix_be  cfg radix a → hex bytes of the digit values (most significant first) / P
     to_radix_le  cfg radix a → hex bytes of the digit values (least significant first) / P
+    roundtrip_str cfg radix a → from_str_radix (to_str_radix a radix) radix : Ok(hex) / Err(..) / P; spec Ok(a)
+    roundtrip_be  cfg radix a → from_radix_be (to_radix_be a radix) radix   : S(hex) / N / P;    spec S(a)
+    roundtrip_le  cfg radix a → from_radix_le (to_radix_le a radix) radix   : S(hex) / N / P;    spec S(a)
   `radix` decimal, `a` hex pattern.  A digit value 256 cannot occur (digits `< radix ≤ 256`).
 -/
 import Bnum.Drive.Util
 import Bnum.Model.Radix
 import Bnum.Spec.Radix
+import Bnum.Drive.C10
 namespace Bnum.Drive.C11
 open Bnum Bnum.Drive Bnum.Spec.Radix
 
@@ -27,6 +31,23 @@ def handle : Handler := fun c op args =>
     let radix ← r.toNat?; let a ← parseVal c a
     let sp := if 2 ≤ radix ∧ radix ≤ 256 then showBytes (canonLE radix (U w a)) else "P"
     some (showOut showBytes (UI.toRadixLe w a radix), sp)
+  | "roundtrip_str", [r, a] => do
+    let radix ← r.toNat?; let a ← parseVal c a
+    let mo : Outcome PRes :=
+      if c.signed then (II.toStrRadix w a radix).bind fun s => II.fromStrRadix w c.n s radix
+      else (UI.toStrRadix w a radix).bind fun s => UI.fromStrRadix w c.n s radix
+    let sp := if 2 ≤ radix ∧ radix ≤ 36 then "Ok(" ++ showVal c a ++ ")" else "P"
+    some (showOut (C10.showPRes c) mo, sp)
+  | "roundtrip_be", [r, a] => do
+    let radix ← r.toNat?; let a ← parseVal c a
+    let mo := (UI.toRadixBe w a radix).bind fun s => UI.fromRadixBe w c.n s radix
+    let sp := if 2 ≤ radix ∧ radix ≤ 256 then "S(" ++ showVal c a ++ ")" else "P"
+    some (showOut (showOpt (showVal c)) mo, sp)
+  | "roundtrip_le", [r, a] => do
+    let radix ← r.toNat?; let a ← parseVal c a
+    let mo := (UI.toRadixLe w a radix).bind fun s => UI.fromRadixLe w c.n s radix
+    let sp := if 2 ≤ radix ∧ radix ≤ 256 then "S(" ++ showVal c a ++ ")" else "P"
+    some (showOut (showOpt (showVal c)) mo, sp)
   | _, _ => none
 
 end Bnum.Drive.C11
